@@ -323,7 +323,8 @@ class YamlItem(pytest.Item):
         actual_value = self.simulation.calculate(variable_name, period)
 
         if entity_index is not None:
-            actual_value = actual_value[entity_index]
+            # Slicing keeps the array type (e.g. EnumArray) of the selection.
+            actual_value = actual_value[entity_index : entity_index + 1]
 
         return assert_near(
             actual_value,
